@@ -27,7 +27,7 @@ META = {
     "level_note": "Strings are valid UTF-8; case folding is checked for ASCII and Latin-1 letters only. Returned "
                   "groups are compared case-insensitively (the code returns them lower-cased). Templates with a digit "
                   "directly after a parameter or with out-of-range parameters are not generated (the statement does "
-                  "not define them). Quick crosses only pattern/host pairs of combined length <= 5; thorough the full "
+                  "not define them). Quick crosses only pattern/host pairs of combined length <= 4 (5 when the pattern has a wildcard); thorough the full "
                   "820 x 585 product. End-to-end cases are a fixed family of dialable route shapes.",
     "technique": "TLA+ reference operators, TLC exhaustive self-check, TLC vector export, TLC trace validation of "
                  "recorded real I/O",
